@@ -27,7 +27,7 @@ func init() {
 			g(rep, "ORDER", func() { ruleORDER(p, rep, orderSet("ORDER", "SLOT", "FINALIZE", "WHO-MAY-SWITCH")) })
 			g(rep, "SHADOW", func() { ruleSHADOW(p, rep) })
 			g(rep, "DEFERFREE", func() { ruleDEFERFREE(p, rep) })
-			g(rep, "STICKY", func() { ruleSTICKY(p, rep) })
+			g(rep, "STICKY", func() { ruleSTICKYAI(p, rep); ruleSTICKYSSA(p, rep) })
 			g(rep, "VALIDATE-COMPLETE", func() { ruleVALIDATECOMPLETE(p, rep) })
 			g(rep, "CHECKSUM-COVERAGE", func() { ruleCHECKSUMCOVERAGE(p, rep) })
 		},
@@ -111,7 +111,7 @@ func init() {
 			g(rep, "ERRDISC", func() { ruleERRDISC(p, rep, "pq", true) })
 			g(rep, "ORDER", func() { ruleORDER(p, rep, orderSet("COMMIT-ERROR-PATH", "COMMITPOINT")) })
 			g(rep, "LIFECYCLE", func() { ruleLIFECYCLE(p, rep, "tx-finished") })
-			g(rep, "STICKY", func() { ruleSTICKY(p, rep) })
+			g(rep, "STICKY", func() { ruleSTICKYAI(p, rep); ruleSTICKYSSA(p, rep) })
 		},
 	})
 	register(&propertyDef{
@@ -123,7 +123,7 @@ func init() {
 			g(rep, "LOCKS", func() { ruleLOCKS(p, rep, nil, true) })
 			g(rep, "LOCKSET", func() { ruleLOCKSET(p, rep) })
 			g(rep, "WAKEUP", func() { ruleWAKEUP(p, rep) })
-			g(rep, "STICKY", func() { ruleSTICKY(p, rep) })
+			g(rep, "STICKY", func() { ruleSTICKYAI(p, rep); ruleSTICKYSSA(p, rep) })
 		},
 	})
 	register(&propertyDef{
@@ -133,6 +133,7 @@ func init() {
 		run: func(p *Program, rep *Report, tier string) {
 			g(rep, "PERSIST-AGREE", func() { rulePERSISTAGREE(p, rep) })
 			g(rep, "RELOAD-AGREE", func() { ruleRELOADAGREE(p, rep) })
+			g(rep, "MMAP-COVERS-FILE", func() { ruleMMAPCOVERSFILE(p, rep) })
 		},
 	})
 	register(&propertyDef{
@@ -141,6 +142,7 @@ func init() {
 			"plus (UNDO-JOURNAL, INV-FL) no page vanishes on rollback. Not decided: the conservation equation, FileStats arithmetic, truncation.",
 		run: func(p *Program, rep *Report, tier string) {
 			g(rep, "CAPACITY", func() { ruleCAPACITY(p, rep) })
+			g(rep, "DEFERFREE", func() { ruleDEFERFREE(p, rep) })
 			g(rep, "UNDO-JOURNAL", func() { ruleUNDOJOURNAL(p, rep) })
 			g(rep, "INV-FL", func() { ruleINVFL(p, rep) })
 		},
